@@ -124,10 +124,12 @@ def run(ctx) -> None:
     # add-ons: stores to objects not owned by the add-on module are `X[i] = X[i] + <add-on total>`
     addon = repo.method('EconomicsAddOns', 'Calculate')
     n4 = 0
+    series4 = set()
     for s in loop_stores(addon.node):
         if s.key.startswith('self.'):
             continue
         n4 += 1
+        series4.add(s.key)
         key = f'EconomicsAddOns.Calculate/{s.key}'
         where = f'{addon.module.rel}:{s.line}'
         own = f'{s.key}[{norm(s.index)}]'
@@ -146,7 +148,8 @@ def run(ctx) -> None:
         ctx.check(ok, 'H4', key, where,
                   f'`{norm(s.stmt)[:100]}`: the add-on module rewrites a base series as `{v.show(4)}` instead of adding its own total to '
                   f'the same element; an add-on with zero cost and zero gains then changes the result', fact=f'{own} + add-on total')
-    ctx.floor('H4', n4, 4, 'add-on stores to base series')
+    ctx.floor('H4', len(series4), 2, 'base series the add-on module adds to (electricity and heat produced)')
+    ctx.analysed['addon_stores_to_base_series'] = n4
     for st in ast.walk(addon.node):
         if isinstance(st, (ast.Assign, ast.AugAssign)):
             for t in (st.targets if isinstance(st, ast.Assign) else [st.target]):
